@@ -83,6 +83,17 @@ def oracle_diag(ctx, out, budget_last_entry=None):
   pk = search.par_key(out)
   rp = search.ref_par(ctx, out)
   p = out.par
+  # the caller edits its parameter object after the search: the designs'
+  # diagnostics must keep the values of the search (they hold copies)
+  saved_fields = (p.min_corr, p.sig_level, p.power_level)
+  p.min_corr, p.sig_level, p.power_level = 0.999999, 0.55, 0.51
+  try:
+    return _oracle_diag_body(ctx, out, obs, pk, rp, p)
+  finally:
+    p.min_corr, p.sig_level, p.power_level = saved_fields
+
+
+def _oracle_diag_body(ctx, out, obs, pk, rp, p):
   for pos, (T, C, d) in enumerate(search.designs_of(out)):
     det = dict(pos=pos, T=sorted(T), C=sorted(C))
     y = ctx.series(T, out.window)
